@@ -106,6 +106,12 @@ func (c *Ctx) emit(op string, toks []string, implResult string, oracleFail strin
 	return id
 }
 
+// emitOneWay records a case whose relation to the model is one-directional ("implementation accepts ⇒ model accepts with the
+// same value"); ops the model does not know are answered `oneway none` and only the direct oracle applies.
+func (c *Ctx) emitOneWay(op string, toks []string, implResult string, oracleFail string) string {
+	return c.emit("oneway", append([]string{op}, toks...), "oneway "+implResult, oracleFail)
+}
+
 // ---- token encoding (mirror of SamlVerif/Driver/Proto.lean) ----
 
 func isPlain(b byte) bool {
